@@ -58,6 +58,18 @@ Proof.
   le_case (Hrec e l). destruct (rec2 e l); try apply le_res_refl.
   destruct (Nat.eqb loc0 l); [apply le_res_refl|apply IH].
 Qed.
+Lemma peg_skip_scan_le s n t fo : forall tl, le_res (peg_skip_scan s rec1 n t fo tl) (peg_skip_scan s rec2 n t fo tl).
+Proof.
+  induction n as [|n IH]; intros tl; cbn [peg_skip_scan]; [apply le_res_refl|]. cbv zeta.
+  destruct (Nat.ltb (length s) tl); [apply le_res_refl|].
+  assert (HT : le_res (match rec1 (nopre t) tl with
+                       | POk _ _ => POk tl [] | PFail => peg_skip_scan s rec1 n t fo (S tl) | PDiv => PDiv | POut => POut end)
+                      (match rec2 (nopre t) tl with
+                       | POk _ _ => POk tl [] | PFail => peg_skip_scan s rec2 n t fo (S tl) | PDiv => PDiv | POut => POut end)).
+  { le_case (Hrec (nopre t) tl). destruct (rec2 (nopre t) tl); try apply le_res_refl. apply IH. }
+  destruct fo as [fo|]; [|exact HT].
+  le_case (Hrec fo tl). destruct (rec2 fo tl); try apply le_res_refl. exact HT.
+Qed.
 Lemma peg_each_round_le es : forall cands l reqd opt mo nf k1 k2,
   (forall l' r o m nf', le_res (k1 l' r o m nf') (k2 l' r o m nf')) ->
   le_res (peg_each_round rec1 es cands l reqd opt mo nf k1) (peg_each_round rec2 es cands l reqd opt mo nf k2).
@@ -108,7 +120,10 @@ Proof.
       apply peg_star_stop_le, H.
     + le_case (H b loc). destruct (peg G2 s f2 b loc); try apply le_res_refl.
       apply peg_star_le, H.
-  - apply le_res_refl.
+  - destruct ig; [|apply le_res_refl].
+    le_case (peg_skip_scan_le _ _ H s (length s + 2) t fo loc).
+    destruct (peg_skip_scan s (peg G2 s f2) (length s + 2) t fo loc) as [tl ts| | |]; try apply le_res_refl.
+    destruct inc; [|apply le_res_refl]. le_case (H (nopre t) tl). apply le_res_refl.
   - destruct id as [id|]; [|apply le_res_refl]. apply HF.
 Qed.
 
